@@ -259,7 +259,24 @@ class SReal:
                 ex = _EXACT_FN.get((name, c))
                 if ex is not None:
                     return SReal(ex())
-            return SReal(tm.fn(name, self.t))
+            t = self.t
+            if name in ("sin", "cos", "tan"):
+                # A4 (Lean-backed): cos(-a) = cos a, sin(-a) = -sin a; cos(arccos x) = x and
+                # sin(arccos x) = sqrt(1 - x^2) for -1 <= x <= 1 (the guard is recorded as an obligation)
+                if t.op == "neg":
+                    inner = getattr(SReal(t.args[0]), name)()
+                    return inner if name == "cos" else -inner
+                if t.op == "fn" and t.args[0] == "arccos":
+                    x = SReal(t.args[1])
+                    if _ACTIVE:
+                        g = tm.and_(tm.le(tm.const(-1), x.t), tm.le(x.t, tm.const(1)))
+                        if g is not tm.TRUE:
+                            _ACTIVE[-1].prove("trig-guard/arccos-argument-in-[-1,1]", SBool(g))
+                    if name == "cos":
+                        return x
+                    if name == "sin":
+                        return (1 - x * x).sqrt()
+            return SReal(tm.fn(name, t))
 
         m.__name__ = name
         return m
